@@ -1,18 +1,8 @@
 From Coq Require Import List Bool Arith Lia.
+From QV Require Import GenLib.
 Import ListNotations.
 
-(* ---------- binomials and k-sublists ---------- *)
-Fixpoint binom (n k : nat) : nat :=
-  match n, k with
-  | _, O => 1
-  | O, S _ => 0
-  | S n', S k' => binom n' k' + binom n' (S k')
-  end.
-Lemma binom_gt n : forall k, n < k -> binom n k = 0.
-Proof. induction n; intros [|k] H; simpl; try lia. rewrite !IHn; lia. Qed.
-Lemma binom_nn n : binom n n = 1.
-Proof. induction n; simpl; auto. rewrite IHn, binom_gt; lia. Qed.
-
+(* ---------- k-sublists (binomials: GenLib.binom) ---------- *)
 Fixpoint combs {A} (k : nat) (l : list A) : list (list A) :=
   match k, l with
   | O, _ => [[]]
